@@ -29,7 +29,8 @@ META = {
         " Round 7: cleanup_desc word tests act on lower-cased text and never remove a word from the front; possessive quantifiers are modelled exactly for single-character bodies (compact 't154nr97w' is part of the spelling family)."
         " Round 8: deduce_layout's section search finds every spelling (incl. '§'); reduce_whitespace rewrites whitespace only."
         ' Round 9: deduce_layout searches the whole text; no de-duplication / re-ordering idiom on the parse path.'
-        " Round 10: sub_scrubber rewrites each Twp/Rge where it stands ('5N-9W ... 15N-9W')."),
+        " Round 10: sub_scrubber rewrites each Twp/Rge where it stands ('5N-9W ... 15N-9W')."
+        " Round 11: cleanup_desc leaves a final full stop alone; the continuation-word test in front of a section sees whole words only; _parse_meaningful's layout tests are judged by the class of layouts they use when rewritten."),
     'families': ['TBL', 'RX-LANG', 'ORDER'],
 }
 
@@ -72,6 +73,9 @@ def check(ctx):
     ctx.attempt(common.match_record_roles)
     from .c08 import _by_position       # 'T5N-R9W ... T15N-R9W': the short Twp/Rge is rewritten where it stands only
     ctx.attempt(_by_position)
+    from .c04 import cleanup_keeps_final_stop, continuation_word_tests_are_whole_words
+    ctx.attempt(cleanup_keeps_final_stop, rule='TBL')
+    ctx.attempt(continuation_word_tests_are_whole_words)
 
 
 def _pretty(ctx, tw, ms):
@@ -251,7 +255,7 @@ def word_tables(ctx):
     for n in walk_local(sf.node):
         if isinstance(n, ast.Assign) and norm(n.targets[0]) == 'illegal':
             sites.append(('SecFinder: illegal prior words', ctx.fold.eval(n.value, {}, sf.module.name), sf, n))
-    cd = ctx.repo.func('plss_parse:cleanup_desc')
+    cd = common.cleanup_func(ctx)
     for n in walk_local(cd.node):
         if isinstance(n, ast.Assign) and norm(n.targets[0]) == 'cull_list':
             sites.append(('cleanup_desc: cull_list', ctx.fold.eval(n.value, {}, cd.module.name), cd, n))
@@ -378,9 +382,9 @@ def _marker_walk(ctx):
               'start markers advance the working Twp/Rge / section')
     # a dictated layout reaches the chunk parsers (see also C11)
     pp = ctx.repo.func('PLSSParser.parse')
-    from .c11 import chunk_layout_conditions, mentions
+    from .c11 import chunk_layout_conditions, mentions, mandate_attr
     conds = chunk_layout_conditions(pp)
-    ok = any(mentions(pp, c, 'mandate_layout') for c in conds)
+    ok = any(mentions(pp, c, mandate_attr(ctx)) for c in conds)
     ctx.tri(ok, bool(conds) and not ok, 'TBL', 'a dictated layout is handed to every ChunkParser',
             detail_bad="ChunkParsers only get a layout under a condition that ignores mandate_layout: a dictated "
                        "layout reaches them as None", key="TBL|PLSSParser.parse|mandate")
